@@ -512,8 +512,122 @@ def judge_till(case, rng):
     return violations, stats, sess
 
 
+def reused_conditions(case, rng):
+    """condition objects (flags, comparisons, connectives of them) that served an earlier
+    simulation - their block left without them firing, fired, aborted by a failure, their waiter
+    cancelled - guard blocks and are awaited in later simulations: those end / resume exactly
+    when the condition becomes true there"""
+    import usim
+    from usim import time, until, Flag, Tracked, Scope, TaskCancelled
+    a, b, c, x = Flag(), Flag(), Flag(), Tracked(0)
+    shape = rng.choice(['or', 'and', 'nested', 'tracked-and', 'inverse', 'flag', 'cmp', 'deep'])
+    cond, to_true, to_false = {
+        'or': (a | b, [(b, True)], [(b, False)]),
+        'and': (a & b, [(a, True), (b, True)], [(a, False), (b, False)]),
+        'nested': (a & (b | c), [(c, True), (a, True)], [(a, False), (c, False)]),
+        'tracked-and': ((x > 3) & a, [(x, 5), (a, True)], [(x, 0), (a, False)]),
+        'inverse': (~a | b, [(a, False)], [(a, True)]),
+        'flag': (a, [(a, True)], [(a, False)]),
+        'cmp': (x > 3, [(x, 7)], [(x, 1)]),
+        'deep': ((a | b) & (b | c) & ~c, [(b, True)], [(b, False)]),
+    }[shape]
+    first_mode = rng.choice(['left', 'fired', 'aborted', 'waiter-cancelled', 'awaited'])
+    violations = []
+    log = []
+
+    class Abort(Exception):
+        pass
+
+    async def change(settings):
+        for target, value in settings:
+            await target.set(value)
+
+    async def first():
+        await change(to_false)
+        if first_mode == 'left':
+            async with until(cond):
+                await (time + 5)
+        elif first_mode == 'fired':
+            async with Scope() as scope:
+                scope.do(change(to_true), after=2)
+                async with until(cond):
+                    await (time + 5)
+            await change(to_false)
+        elif first_mode == 'aborted':
+            async with until(cond):
+                await (time + 2)
+                raise Abort
+        elif first_mode == 'waiter-cancelled':
+            async def waits():
+                await cond
+            async with Scope() as scope:
+                task = scope.do(waits())
+                await (time + 2)
+                task.cancel()
+                try:
+                    await task
+                except TaskCancelled:
+                    pass
+        else:
+            async with Scope() as scope:
+                scope.do(change(to_true), after=2)
+                await cond
+            await change(to_false)
+
+    async def later(tag, base):
+        await change(to_false)
+        async with Scope() as scope:
+            scope.do(change(to_true), after=3)
+            async with until(cond):
+                await (time + 10)
+            log.append((tag, 'block left', time.now - base))
+        await change(to_false)
+        async with Scope() as scope:
+            scope.do(change(to_true), after=2)
+            await cond
+            log.append((tag, 'await resumed', time.now - base))
+        await change(to_false)
+        async with until(cond):
+            await (time + 4)
+        log.append((tag, 'block not struck', time.now - base))
+
+    sessions = [Session()]
+    outcome = sessions[0].run(first())
+    if (outcome[0] == 'exc') != (first_mode == 'aborted') or (
+            outcome[0] == 'exc' and not isinstance(outcome[1], Abort)):
+        violations.append({'mechanism': 'c07:run-failed',
+                           'msg': 'first simulation (%s, %s) ended with %r' % (
+                               shape, first_mode, outcome[1])})
+    outcome = None
+    want = []
+    for tag, base in (('second', 0), ('third', 100)):
+        sessions.append(Session())
+        outcome = sessions[-1].run(later(tag, base), start=base)
+        want += [(tag, 'block left', 3), (tag, 'await resumed', 5), (tag, 'block not struck', 9)]
+        if outcome[0] != 'ok':
+            violations.append({
+                'mechanism': 'c07:run-failed',
+                'msg': 'a %s condition that served an earlier simulation (%s): the %s simulation '
+                       'ended with %r' % (shape, first_mode, tag, outcome[1])})
+            break
+    if not violations and log != want:
+        violations.append({
+            'mechanism': 'c07:wrong-exit-time',
+            'msg': 'a %s condition that served an earlier simulation (%s): later simulations '
+                   'logged %s, expected %s' % (shape, first_mode, log, want)})
+    for sess in sessions:
+        violations += [dict(v) for v in sess.violations if v['mechanism'].startswith('kernel-')]
+    for vio in violations:
+        vio['case'] = dict(case)
+    return violations, sessions[-1]
+
+
 def run_case(case):
     rng = random.Random('%s/%s/c07-kind' % (case['seed'], case['index']))
+    if case['index'] % 20 == 13:
+        violations, sess = reused_conditions(case, rng)
+        return {'evals': 3, 'sigs': [sess.signature()], 'violations': violations, 'sample': None,
+                'stats': {'conditions_reused_by_later_simulations': 1, 'activations': sess.n}}
     if case['index'] % 5 == 4:
         violations, stats, sess = judge_till(case, rng)
         sigs = [sess.signature()] if stats['till_cut_short'] else []
